@@ -15,11 +15,12 @@ C08.e     deflation: every deflation circuit contributes deflation_coeff * (prob
 from __future__ import annotations
 
 import ast
-from typing import Dict, List, Optional, Set
+from typing import Dict, List, Optional, Set, Tuple
 
 import sympy as sp
 
 from ..cfg import CFG
+from ..consteval import Folder, Raised, Undecidable
 from ..index import AnalysisError, FunctionInfo, Index, full, norm, own_nodes
 from ..report import Report
 from ..rules import siblings as sib
@@ -251,37 +252,105 @@ def check_circuit_assembly(idx: Index, rep: Report):
 
 
 def check_deflation(idx: Index, rep: Report):
+    """energy += deflation_coeff * |<psi_k|psi>|^2 for every deflation circuit.  Two ways of obtaining the overlap are understood:
+    (a) the all-zero frequency of (U_k then U^dagger) or (U then U_k^dagger); (b) |<a|b>|^2 of two simulated statevectors with a
+    conjugating inner product.  Anything else is an idiom this check does not know: analysis error, not a verdict."""
     rule = "K9.deflation"
     f = idx.function(f"{VQE}::VQESolver.energy_estimation")
-    loops = [n for n in own_nodes(f.node) if isinstance(n, ast.For) and norm(n.iter) == "self.deflation_circuits"]
+    loops = [n for n in ast.walk(f.node) if isinstance(n, ast.For) and norm(n.iter) == "self.deflation_circuits"]
     if not loops:
         rep.violation(rule, f, f.node, text="deflation loop", what="every deflation circuit contributes an overlap penalty", reason="loop over deflation circuits missing")
         return
     lp = loops[0]
-    t = full(lp)
     var = norm(lp.target)
-    sim = [c for c in ast.walk(lp) if isinstance(c, ast.Call) and norm(c.func) == "self.backend.simulate"]
-    ok = bool(sim) and norm(sim[0].args[0]) == f"{var} + circuit.inverse()"
-    rep.decide(ok, rule, f, sim[0] if sim else lp, text="overlap circuit = deflation circuit followed by the inverse of the evaluated circuit",
-               what="the overlap |<psi_k|psi>|^2 is the all-zero probability of U_k followed by U^dagger", reason=f"overlap circuit {norm(sim[0].args[0]) if sim else '?'}")
+    # simulate() calls of the function, by the names their results are bound to
+    sims: Dict[str, Tuple[str, ast.Call, bool]] = {}          # name -> (which output: 'freq'|'sv', call, return_statevector?)
+    for n in ast.walk(f.node):
+        if isinstance(n, ast.Assign) and isinstance(n.value, ast.Call) and norm(n.value.func) == "self.backend.simulate" and isinstance(n.targets[0], ast.Tuple) \
+                and len(n.targets[0].elts) == 2:
+            rsv = any(k.arg == "return_statevector" and norm(k.value) == "True" for k in n.value.keywords)
+            sims[norm(n.targets[0].elts[0])] = ("freq", n.value, rsv)
+            sims[norm(n.targets[0].elts[1])] = ("sv", n.value, rsv)
     acc = [n for n in ast.walk(lp) if isinstance(n, ast.AugAssign) and norm(n.target) == "energy"]
-    ok = False
-    if acc and isinstance(acc[0].op, ast.Add):
-        try:
-            d, p = sp.symbols("d p", real=True)
+    if len(acc) != 1 or not isinstance(acc[0].op, ast.Add):
+        rep.violation(rule, f, lp, text="energy += deflation_coeff * overlap", what="each deflation circuit adds exactly its weighted overlap probability",
+                      reason=f"{len(acc)} additive updates of the energy inside the deflation loop")
+        return
+    d, pov = sp.symbols("d p", real=True)
+    found: List[Tuple[str, ast.AST, str]] = []                # (verdict, node, reason)
 
-            def unk(n):
-                if isinstance(n, ast.Call) and norm(n.func) == "f_dict.get":
-                    return p
-                if norm(n) == "self.deflation_coeff":
-                    return d
-                return None
-            ok = symx.equal(symx.to_sympy(acc[0].value, on_unknown=unk), d * p)
-        except symx.Untranslatable:
-            ok = False
-    rep.decide(ok, rule, f, acc[0] if acc else lp, text="energy += deflation_coeff * P(all zeros)", what="each deflation circuit adds exactly its weighted overlap probability",
-               reason=f"accumulation {norm(acc[0]) if acc else '?'}")
-    key = [c for c in ast.walk(lp) if isinstance(c, ast.Call) and norm(c.func) == "f_dict.get"]
-    ok = bool(key) and norm(key[0].args[0]) == "'0' * self.ansatz.circuit.width" and norm(key[0].args[1]) == "0"
-    rep.decide(ok, rule, f, key[0] if key else lp, text="all-zero outcome over the ansatz width, 0 when absent", what="the overlap is read from the all-zero bitstring (missing key = probability 0)",
-               reason=f"key {norm(key[0]) if key else '?'}")
+    def state_of(call: ast.Call) -> Optional[List[str]]:
+        """the circuit a simulate() call prepares, as a word over {K (deflation circuit), U (evaluated circuit), K^, U^ (inverses)}"""
+        def word(e):
+            if isinstance(e, ast.BinOp) and isinstance(e.op, ast.Add):
+                l, r = word(e.left), word(e.right)
+                return None if l is None or r is None else l + r
+            t = norm(e)
+            if t == var:
+                return ["K"]
+            if t == "circuit":
+                return ["U"]
+            if t == f"{var}.inverse()":
+                return ["K^"]
+            if t == "circuit.inverse()":
+                return ["U^"]
+            return None
+        return word(call.args[0]) if call.args else None
+
+    def unk(n):
+        t = norm(n)
+        if t == "self.deflation_coeff":
+            return d
+        # (a) frequency lookup
+        if isinstance(n, ast.Call) and isinstance(n.func, ast.Attribute) and n.func.attr == "get" and norm(n.func.value) in sims and sims[norm(n.func.value)][0] == "freq":
+            call = sims[norm(n.func.value)][1]
+            w = state_of(call)
+            okw = w in (["K", "U^"], ["U", "K^"])
+            keys = []
+            for width in (1, 3):
+                fo = Folder(env={"self.ansatz.circuit.width": width, "circuit.width": width})
+                try:
+                    keys.append(fo.expr(n.args[0]))
+                except (Undecidable, Raised):
+                    keys.append(None)
+            okk = keys == ["0", "000"] and len(n.args) == 2 and norm(n.args[1]) in ("0", "0.0", "0.")
+            found.append(("ok" if okw and okk else "bad", n,
+                          ("" if okw else f"overlap circuit is {' then '.join(w) if w else norm(call.args[0])}, not U_k followed by U^dagger; ") +
+                          ("" if okk else f"outcome looked up is {keys} with default {norm(n.args[1]) if len(n.args) > 1 else 'none'}, not the all-zero string with default 0")))
+            return pov
+        # (b) squared modulus of an inner product of two statevectors
+        if isinstance(n, ast.BinOp) and isinstance(n.op, ast.Pow) and norm(n.right) == "2" and isinstance(n.left, ast.Call) and norm(n.left.func) in ("abs", "np.abs", "np.absolute") \
+                and isinstance(n.left.args[0], ast.Call):
+            ip = n.left.args[0]
+            fn = norm(ip.func)
+            args = [norm(x) for x in ip.args]
+            if len(args) == 2:
+                def base(x):
+                    for suf in (".conj()", ".conjugate()"):
+                        if x.endswith(suf):
+                            return x[:-len(suf)], True
+                    for pre in ("np.conj(", "np.conjugate("):
+                        if x.startswith(pre) and x.endswith(")"):
+                            return x[len(pre):-1], True
+                    return x, False
+                (a0, c0), (a1, c1) = base(args[0]), base(args[1])
+                if a0 in sims and a1 in sims and sims[a0][0] == "sv" and sims[a1][0] == "sv" and fn in ("np.vdot", "np.dot", "np.inner", "np.matmul"):
+                    words = sorted((state_of(sims[a0][1]) or ["?"])[0] + (state_of(sims[a1][1]) or ["?"])[0])
+                    conj = (fn == "np.vdot" and not c0 and not c1) or (fn != "np.vdot" and (c0 != c1))
+                    okst = words == ["K", "U"] and sims[a0][2] and sims[a1][2]
+                    found.append(("ok" if conj and okst else "bad", n,
+                                  ("" if conj else f"{fn}({', '.join(args)}) does not conjugate one of the two statevectors: it is not |<psi_k|psi>|^2 for complex amplitudes; ") +
+                                  ("" if okst else f"the two statevectors are those of {words}, expected the deflation circuit and the evaluated circuit")))
+                    return pov
+        return None
+    try:
+        val = symx.to_sympy(acc[0].value, first=unk)
+    except symx.Untranslatable as e:
+        raise AnalysisError(f"energy_estimation: deflation penalty {norm(acc[0].value)} uses an idiom this check does not know ({e})")
+    if not found:
+        raise AnalysisError(f"energy_estimation: no overlap expression recognised in {norm(acc[0].value)}")
+    rep.decide(symx.equal(val, d * pov), rule, f, acc[0], text="energy += deflation_coeff * overlap", what="each deflation circuit adds exactly its weighted overlap probability",
+               reason=f"accumulated term is {val} (d = deflation_coeff, p = overlap)")
+    for verdict, node, why in found:
+        rep.decide(verdict == "ok", rule, f, node, text="overlap = |<psi_k|psi>|^2 (all-zero frequency of U_k U^dagger, or conjugating inner product of the two states)",
+                   what="the overlap is the squared modulus of the inner product of the deflation state and the evaluated state", reason=why)
